@@ -1337,7 +1337,9 @@ class VectorVariable:
         if isinstance(other, MatrixVectorProduct):
             # Check if the MatrixVectorProduct's vector is self
             if isinstance(other.vector, VectorVariable):
-                if other.vector is self or other.vector.name == self.name:
+                # same vector = same variables in the same order (view names are
+                # not unique: x[0:4], x[::-1] and x[0:4:3] are all named "x[0:4]")
+                if other.vector is self or other.vector._variables == self._variables:
                     # This is x.dot(A @ x) - return QuadraticForm for O(1) gradient
                     return QuadraticForm(self, other.matrix)
 
